@@ -595,7 +595,9 @@ Lemma init_row_state_role req old :
 Proof.
   unfold init_row_state. destruct (memN req keep_requested && memN old keep_old) eqn:E.
   - intros H. right. exact H.
-  - intros H. left. exact H.
+  - destruct (keep_volatile_on_supply && (req =? FS_UNDECLARED) && (old =? FS_VOLATILE)) eqn:E2.
+    + intros H. right. apply andb_true_iff in E2. destruct E2 as [_ E2]. apply N.eqb_eq in E2. rewrite E2. exact H.
+    + intros H. left. exact H.
 Qed.
 
 Lemma init_row_inv rows ever p req :
@@ -676,8 +678,10 @@ Theorem static_adoption_forgets_output_hash r :
   memN (fr_state r') bd_volatile_states = false /\ memN (fr_state r') bd_hashed_states = false.
 Proof.
   intros Hold. cbv zeta. destruct gen_static_requests as [G1 [G2 G3]].
-  assert (init_row_state FS_UNCONFIRMED (fr_state r) = FS_UNCONFIRMED) as Hs
-    by (unfold init_row_state; rewrite G3; reflexivity).
+  assert (init_row_state FS_UNCONFIRMED (fr_state r) = FS_UNCONFIRMED) as Hs.
+  { unfold init_row_state. rewrite G3. cbn [andb].
+    assert ((FS_UNCONFIRMED =? FS_UNDECLARED) = false) as -> by (vm_compute; reflexivity).
+    rewrite andb_false_r. reflexivity. }
   rewrite Hs. split; [reflexivity|]. split.
   - unfold write_state, clear_hash_when. cbn [fr_hash]. rewrite Hold.
     assert (memN FS_UNCONFIRMED clear_pair_new = true) as -> by (vm_compute; reflexivity).
@@ -1255,4 +1259,42 @@ Lemma before_delete_marks_parent trees x q :
 Proof.
   intros Hk. cbv zeta. intros Hskip. unfold before_delete. rewrite Hk, N.eqb_refl.
   unfold mark_dir. rewrite Hskip. cbn [qdirs]. left. reflexivity.
+Qed.
+
+
+(* ---- a row that File.before_delete would queue, supplied as an input while creator-less --------
+   (File.initialize_row with UNDECLARED requested): does it keep the state that makes the cleanup
+   remove the file later?  BUILT/OUTDATED: yes (keep rule).  VOLATILE: only with the second arm of
+   the keep rule (regenerated flag keep_volatile_on_supply). *)
+Definition queued_on_delete (s : N) : bool := memN s bd_volatile_states || memN s bd_hashed_states.
+
+Definition supply_keeps_cleanup_memory : Prop :=
+  forall s, queued_on_delete s = true -> queued_on_delete (init_row_state FS_UNDECLARED s) = true.
+
+Theorem supply_keeps_cleanup_memory_hashed s :
+  memN s bd_hashed_states = true -> queued_on_delete (init_row_state FS_UNDECLARED s) = true.
+Proof.
+  intros H.
+  apply (memN_forallb (fun x => queued_on_delete (init_row_state FS_UNDECLARED x)) s _ H).
+  vm_compute. reflexivity.
+Qed.
+
+Theorem supply_keeps_cleanup_memory_refuted :
+  keep_volatile_on_supply = false -> ~ supply_keeps_cleanup_memory.
+Proof.
+  intros Hflag H. unfold keep_volatile_on_supply in Hflag.
+  first
+    [ discriminate Hflag
+    | specialize (H FS_VOLATILE); vm_compute in H; specialize (H eq_refl); discriminate H ].
+Qed.
+
+Theorem supply_keeps_cleanup_memory_fixed :
+  keep_volatile_on_supply = true -> supply_keeps_cleanup_memory.
+Proof.
+  intros Hflag s Hs. unfold keep_volatile_on_supply in Hflag.
+  first
+    [ discriminate Hflag
+    | unfold queued_on_delete in Hs; apply orb_true_iff in Hs; destruct Hs as [Hs|Hs];
+      [ apply (memN_forallb (fun x => queued_on_delete (init_row_state FS_UNDECLARED x)) s _ Hs); vm_compute; reflexivity
+      | apply supply_keeps_cleanup_memory_hashed; exact Hs ] ].
 Qed.
